@@ -237,6 +237,7 @@ func (P *Program) runPath(job *Job, fn *ssa.Function, item WorkItem, sol *smt.So
 	it.crcTab = &crcTable{}
 	it.xxhTab = &ufTable{}
 	it.sched = newScheduler(it)
+	it.raceInit()
 	pr = &PathResult{}
 	sol.BeginPath()
 	defer func() {
